@@ -280,7 +280,13 @@ CO_ERR COLssStore(uint32_t baud, uint8_t id)
     return CO_ERR_NONE;
 }
 void COIfCanReceive(CO_IF_FRM *f) { printf("cb canrx %x %u ", f->Identifier, f->DLC); hex(f->Data, f->DLC > 8 ? 8 : f->DLC); printf("\n"); }
-void COPdoTransmit(CO_IF_FRM *f)  { printf("cb pdotx %x %u ", f->Identifier, f->DLC); hex(f->Data, f->DLC > 8 ? 8 : f->DLC); printf("\n"); }
+/* "pdotxcb <num>": inside the next COPdoTransmit callback the application triggers TPDO <num> (e.g. the one being sent: "send once more") */
+static int PtxNum = -1;
+void COPdoTransmit(CO_IF_FRM *f)
+{
+    printf("cb pdotx %x %u ", f->Identifier, f->DLC); hex(f->Data, f->DLC > 8 ? 8 : f->DLC); printf("\n");
+    if (PtxNum >= 0) { int n = PtxNum; PtxNum = -1; printf("cb pdotxtrig %d\n", n); COTPdoTrigPdo(Node->TPdo, (uint16_t)n); }
+}
 int16_t COPdoReceive(CO_IF_FRM *f){ printf("cb pdorx %x %u ", f->Identifier, f->DLC); hex(f->Data, f->DLC > 8 ? 8 : f->DLC); printf("\n"); return (int16_t)PdoVeto; }
 void COPdoSyncUpdate(CO_RPDO *p)  { printf("cb pdosync %d\n", (int)(p - Node->RPdo)); }
 int16_t COParaDefault(CO_PARA *pg)
@@ -769,7 +775,8 @@ int main(void)
                    CO_ERR e = COCSdoRequestDownload(cs, CO_DEV(X(2), X(3)), b, (uint32_t)sz, csdo_cb, U(5));
                    if (e == CO_ERR_NONE) { CsBuf[n] = b; CsLen[n] = (uint32_t)sz; }
                    printf("ret %d\n", (int)e); }
-        } else if (!strcmp(c, "appclear")) { CbReqTmo = 0; CbReqRes = -1; CbEmcy = 0; CbTmrTag = -1; HecSub = 0; HccSub = 0; McbAct = 0;   /* the scripted application forgets its plans */
+        } else if (!strcmp(c, "pdotxcb")) { PtxNum = (int)strtol(ARG(1), NULL, 0);
+        } else if (!strcmp(c, "appclear")) { PtxNum = -1; CbReqTmo = 0; CbReqRes = -1; CbEmcy = 0; CbTmrTag = -1; HecSub = 0; HccSub = 0; McbAct = 0;   /* the scripted application forgets its plans */
         } else if (!strcmp(c, "csdocbreq")) { CbReqTmo = U(1); CbReqRes = -1;
         } else if (!strcmp(c, "csdocbreqres")) { printf("ret %d\n", CbReqRes); CbReqRes = -1;
         } else if (!strcmp(c, "csdocbemcy")) { CbEmcy = 1;
